@@ -254,10 +254,11 @@ impl Service {
     /// 刷新重新纳入本节点管理的实例
     /// 增量http实例增加过期管理
     pub(crate) fn do_refresh_process_range(&mut self) {
-        let instances: Vec<&Arc<Instance>> = self
+        let instances: Vec<Arc<Instance>> = self
             .instances
             .values()
             .filter(|instance| !instance.from_grpc && instance.is_from_cluster())
+            .cloned()
             .collect();
         //log::info!("do_refresh_process_range instance size:{}", instances.len());
         for instance in instances {
@@ -273,6 +274,15 @@ impl Service {
                 instance.last_modified_millis as u64,
                 instance.get_short_key(),
             );
+            // this node owns the instance from now on (as update_instance does for its own range);
+            // with from_cluster left set, is_enable_timeout() stays false and time_check skips it forever
+            let mut local = instance.as_ref().clone();
+            local.from_cluster = 0;
+            if !local.healthy {
+                self.unhealthy_timeout_set
+                    .add(local.last_modified_millis as u64, local.get_short_key());
+            }
+            self.instances.insert(local.get_short_key(), Arc::new(local));
         }
     }
 
